@@ -30,3 +30,25 @@ package resharing
 //@   loop 0 invariant ret ==> (forall k in 0..$iter :: round.oldOK[k])
 //@   loop 0 invariant round.save.EDDSAPub != nil ==> (wfPoint(round.save.EDDSAPub) && (old(round.save.EDDSAPub) != nil ==> (px(round.save.EDDSAPub) == old(px(round.save.EDDSAPub)) && py(round.save.EDDSAPub) == old(py(round.save.EDDSAPub)))))
 //@   loop 0 invariant old(round.save.EDDSAPub) != nil ==> round.save.EDDSAPub != nil
+
+// rounds.go WaitingFor (macros rsOldIDs / rsNewIDs / rsAwaited: ecdsa/resharing contract file)
+//@ func (*base).WaitingFor
+//@   props C08 C06
+//@   requires round != nil && rsWF(round.ReSharingParameters)
+//@   requires [committee-sized-trackers] len(rsOldIDs(round)) == len(round.oldOK) && len(rsNewIDs(round)) == len(round.newOK)
+//@   ensures [C08.waiting-for-lists-only-awaited-peers] forall m in 0..len(result) :: rsAwaited(round, result[m])
+//@   ensures [C08.waiting-for-lists-every-awaited-old-peer] forall j in 0..len(round.oldOK) :: (!round.oldOK[j] ==> (exists m in 0..len(result) :: result[m] == rsOldIDs(round)[j]))
+//@   ensures [C08.waiting-for-lists-every-awaited-new-peer] forall j in 0..len(round.newOK) :: (!round.newOK[j] ==> (exists m in 0..len(result) :: result[m] == rsNewIDs(round)[j]))
+//@   loop 0 invariant idsMap != nil && fresh(idsMap) && oldPs == rsOldIDs(round) && newPs == rsNewIDs(round) && len(ids) == 0 && fresh(ids)
+//@   loop 0 invariant forall j in 0..$iter :: (!round.oldOK[j] ==> maphas(idsMap, oldPs[j]))
+//@   loop 0 invariant forall id :: (maphas(idsMap, id) ==> (exists j in 0..$iter :: (!round.oldOK[j] && oldPs[j] == id)))
+//@   loop 1 invariant idsMap != nil && fresh(idsMap) && oldPs == rsOldIDs(round) && newPs == rsNewIDs(round) && len(ids) == 0 && fresh(ids)
+//@   loop 1 invariant forall j in 0..len(round.oldOK) :: (!round.oldOK[j] ==> maphas(idsMap, oldPs[j]))
+//@   loop 1 invariant forall j in 0..$iter :: (!round.newOK[j] ==> maphas(idsMap, newPs[j]))
+//@   loop 1 invariant forall id :: (maphas(idsMap, id) ==> ((exists j in 0..len(round.oldOK) :: (!round.oldOK[j] && oldPs[j] == id)) || (exists j in 0..$iter :: (!round.newOK[j] && newPs[j] == id))))
+//@   loop 2 invariant idsMap != nil && oldPs == rsOldIDs(round) && newPs == rsNewIDs(round) && fresh(ids)
+//@   loop 2 invariant forall j in 0..len(round.oldOK) :: (!round.oldOK[j] ==> maphas(idsMap, oldPs[j]))
+//@   loop 2 invariant forall j in 0..len(round.newOK) :: (!round.newOK[j] ==> maphas(idsMap, newPs[j]))
+//@   loop 2 invariant forall id :: (maphas(idsMap, id) ==> rsAwaited(round, id))
+//@   loop 2 invariant forall m in 0..len(ids) :: maphas(idsMap, ids[m])
+//@   loop 2 invariant forall id :: (visited(idsMap, id) ==> (exists m in 0..len(ids) :: ids[m] == id))
